@@ -27,7 +27,11 @@ class StepClock:
     def _on_line(self, code: Any, line: int) -> Any:
         self.steps += 1
         if self.steps > self.cap:
-            raise StepBudgetExceeded(self.steps)
+            # (raised again only every thousand further steps: the frames being unwound -- generator
+            # finalisers, context managers -- execute a few more lines, and need not each be
+            # interrupted in turn; code that swallows the exception and goes on is stopped again)
+            if (self.steps - self.cap) % 1000 == 1:
+                raise StepBudgetExceeded(self.steps)
 
     def __enter__(self) -> "StepClock":
         monitor.switch_on(self._on_line, None)
